@@ -82,6 +82,24 @@ func newReqBench(w *W, R time.Duration, nctx, npipes int, bounded bool) *reqBenc
 	if bounded {
 		b.mn.Endpoint(b.addr).SendCap = 1
 	}
+	if w.Choose(simrt.SShape, 4) == 0 {
+		// an application hook that takes its time on Detached: what the
+		// protocol does about a lost connection must not wait for it
+		slow := R
+		if slow < 50*time.Millisecond {
+			slow = 50 * time.Millisecond
+		}
+		if slow > time.Second {
+			slow = time.Second // (the callback must be back before the end-of-run census)
+		}
+		b.s.SetPipeEventHook(func(ev mangos.PipeEvent, p mangos.Pipe) {
+			if ev == mangos.PipeEventDetached {
+				simrt.Sleep(3 * slow)
+			}
+		})
+		w.SetShape("slow_detached_hook", true)
+		w.Probe("slow-detached-hook")
+	}
 	if err := b.s.Listen(b.addr); err != nil {
 		w.Failf("HARNESS/listen", "%v", err)
 	}
